@@ -7,6 +7,12 @@ C02 — stacked subsets, concats and wrappers address the right underlying sampl
 defined without cumulative sizes or bisect.  `valid` is the quantifier's domain for sized stacks: every subset index addresses an
 existing position of the layer below (negative indices allowed), every concat has parts and is not balanced.  All theorems hold
 for every finite nesting (induction over the stack).
+
+Known finding (key `indexmaps:getall-over-balanced-concat`): for a *balanced* concat below another layer the bulk accessor lists
+the parts in a row while per-sample access round-robins.  The full-strength statement "bulk = per-sample for every nesting" is
+therefore false (`bulk_ne_per_sample_over_balanced_concat` proves its negation on a witness); the bulk theorems carry the
+excluding hypothesis `valid` (no balanced concat) and are named `…_partial`.  Per-sample addressing itself is covered for these
+stacks by `layer_composition_subset` / `layer_composition_wrap` (any inner stack) together with `balanced_round_robin`.
 -/
 import KDVerif.Lemmas.IndexMaps
 
@@ -62,39 +68,72 @@ example : resolve (.concat [.base 1 2 .list, .base 3 3 .list] false) 5 = .error 
     resolve (.concat [.base 1 2 .list, .base 3 3 .list] false) (-6) = .error .value := by
   constructor <;> rfl
 
-/-- **the bulk accessor returns the same list**: for every stack whose bases have a bulk accessor (and whose concat parts hand
+/-- **the bulk accessor returns the same list** (partial: `valid` excludes stacks with a balanced concat, for which the statement
+    is false — see `bulk_ne_per_sample_over_balanced_concat`): for every stack whose bases have a bulk accessor (and whose concat parts hand
     over lists, as `KDConcatDataset._call_getall` asserts), `getall_x()` is `flatten` in the container kind of the top layer -/
-theorem getall_eq_flatten (d : DS) (hv : valid d = true) (hb : bulkOk d = true) :
+theorem getall_eq_flatten_partial (d : DS) (hv : valid d = true) (hb : bulkOk d = true) :
     getall d = .ok (kindOf d, flatten d) :=
   KDVerif.IndexMaps.getall_eq_flatten d hv hb
 
-/-- **bulk = per-sample, element-wise**: whatever `getall_x()` returns is what the loop `[getitem_x(i) for i in range(len)]`
+/-- **bulk = per-sample, element-wise** (partial: `valid` excludes stacks with a balanced concat below another layer; the
+    full statement is refuted by `bulk_ne_per_sample_over_balanced_concat`): whatever `getall_x()` returns is what the loop `[getitem_x(i) for i in range(len)]`
     returns -/
-theorem getall_eq_map_resolve (d : DS) (hv : valid d = true) (hb : bulkOk d = true) :
+theorem getall_eq_map_resolve_partial (d : DS) (hv : valid d = true) (hb : bulkOk d = true) :
     ∃ xs, getall d = .ok (kindOf d, xs) ∧ perSample d = .ok xs ∧ len d = .ok xs.length :=
   ⟨flatten d, KDVerif.IndexMaps.getall_eq_flatten d hv hb, perSample_eq_flatten d hv, KDVerif.IndexMaps.len_eq_flatten d hv⟩
 
 example : bulkOk (.concat [.subset 7 1 (.base 1 3 .tensor) [-1, 0], .base 2 0 .list, .wrap 8 5 (.base 3 2 .list)] false) = true := by decide
 
-/-- **`getall_as_list/numpy/tensor` agree with the per-sample accessors on both paths**: when the fast path is taken
-    (`hasattr(getall_x)`) on a stack with working bulk accessors, and when the slow per-sample path is taken (no bulk accessor
-    visible from the top), each of the three converters returns the spec list -/
-theorem getall_as_agree (c : Conv) (d : DS) (hv : valid d = true)
+/-- **`getall_as_list/numpy/tensor` agree with the per-sample accessors on both paths** (partial: `valid` excludes balanced
+    concats, see above): when the fast path is taken (`hasattr(getall_x)`) on a stack with working bulk accessors, and when the
+    slow per-sample path is taken — some base anywhere below has no bulk accessor, which subset and concat layers now report
+    truthfully through `hasattr` — each of the three converters returns the spec list -/
+theorem getall_as_agree_partial (c : Conv) (d : DS) (hv : valid d = true)
     (hp : bulkOk d = true ∨ hasGetall d = false) : getallAs c d = .ok (flatten d) := by
   unfold getallAs getallUtil
   cases hp with
   | inl hb => simp [hasGetall_of_bulkOk d hb, KDVerif.IndexMaps.getall_eq_flatten d hv hb]
   | inr hn => simp [hn, perSample_eq_flatten d hv]
 
-/-- the fast path and the slow path of `utils.getall` give the same list wherever the fast path is available -/
-theorem fast_path_eq_slow_path (d : DS) (hv : valid d = true) (hb : bulkOk d = true) :
+/-- a stack over a base without bulk accessor — through any subset / wrapper / concat layers — is loaded sample-wise and the
+    result is the spec list -/
+theorem getall_as_slow_path (c : Conv) (d : DS) (hv : valid d = true) (hn : hasGetall d = false) :
+    getallAs c d = .ok (flatten d) ∧ getallUtil d = perSample d := by
+  refine ⟨getall_as_agree_partial c d hv (Or.inr hn), ?_⟩
+  simp [getallUtil, hn]
+
+example : hasGetall (.subset 7 1 (.concat [.base 1 2 .list, .wrap 8 5 (.base 2 3 .absent)] false) [4, -1, 0]) = false ∧
+    valid (.subset 7 1 (.concat [.base 1 2 .list, .wrap 8 5 (.base 2 3 .absent)] false) [4, -1, 0]) = true := by decide
+example : getallAs .asTensor (.subset 7 1 (.concat [.base 1 2 .list, .wrap 8 5 (.base 2 3 .absent)] false) [4, -1, 0])
+    = .ok [(2, 2), (2, 2), (1, 0)] := by rfl
+
+/-- the fast path and the slow path of `utils.getall` give the same list wherever the fast path is available (partial:
+    `valid`, see above) -/
+theorem fast_path_eq_slow_path_partial (d : DS) (hv : valid d = true) (hb : bulkOk d = true) :
     getallUtil d = perSample d := by
-  have := getall_as_agree .asList d hv (Or.inl hb)
+  have := getall_as_agree_partial .asList d hv (Or.inl hb)
   unfold getallAs at this
   rw [this, perSample_eq_flatten d hv]
 
 example : hasGetall (.wrap 8 5 (.wrap 9 6 (.base 3 2 .absent))) = false ∧ valid (.wrap 8 5 (.wrap 9 6 (.base 3 2 .absent))) = true := by
   decide
+
+/-- **known finding, negation of the full-strength bulk statement**: for `KDSubset(KDConcatDataset([A(2), B(2)],
+    balanced_sampling=True), indices=[0,1,2,3])` the bulk accessor returns the parts in a row, the per-sample loop round-robins -/
+theorem bulk_ne_per_sample_over_balanced_concat :
+    ∃ xs ys, getall (.subset 1 1 (.concat [.base 1 2 .list, .base 2 2 .list] true) [0, 1, 2, 3]) = .ok (.list, xs) ∧
+      perSample (.subset 1 1 (.concat [.base 1 2 .list, .base 2 2 .list] true) [0, 1, 2, 3]) = .ok ys ∧ xs ≠ ys :=
+  ⟨[(1, 0), (1, 1), (2, 0), (2, 1)], [(1, 0), (2, 0), (1, 1), (2, 1)], rfl, rfl, by decide⟩
+
+/-- per-sample access composes layer by layer for *every* inner stack (balanced concats included): a subset layer hands the
+    stored index `indices[k]` (Python indexing) to the layer below -/
+theorem layer_composition_subset (u t : Nat) (d : DS) (idx : List Int) (k i : Int) (h : specGet? idx k = some i) :
+    resolve (.subset u t d idx) k = resolve d i := by
+  simp [resolve, pyGet_of_specGet? idx k i h]
+
+/-- … and a non-remapping wrapper hands the index through unchanged -/
+theorem layer_composition_wrap (u t : Nat) (d : DS) (k : Int) : resolve (.wrap u t d) k = resolve d k := by
+  simp [resolve]
 
 /-- **balanced sampling round-robins over the parts**: in round `m`, position `j` of the round (global index `m * P + j`,
     `P` parts) yields part `j`'s sample number `m mod size(part j)` — so `P` consecutive indices hit every part exactly once,
